@@ -3,7 +3,7 @@
 The real SyncGroup.start / run / update_devices (incl. map_fmmu and the state
 changes) run on the virtual loop over the bus model.  For each cyclic frame
 the explorer chooses the input pattern the terminals present, the returned
-working counter of every datagram (expected / expected-1 / 0) and whether the
+working counter of every datagram (expected / expected+1 / expected-1 / 0) and whether the
 frame comes back late (timeout path).  A recording device observes what the
 devices see and sets scripted outputs.
 """
@@ -20,7 +20,7 @@ LEVEL = "model_checking"
 RULE = ("terminal sets giving 1-3 cyclic datagrams (FMMU in, FMMU out, "
         "direct) x all executions over CYCLES cycles: input pattern per cycle "
         "(3 choices, free) and, within the deviation bound, a wrong working "
-        "counter per datagram per cycle (expected-1 or 0) or a late frame; "
+        "counter per datagram per cycle (expected+1, expected-1 or 0) or a late frame; "
         "non-trivial = at least two device updates ran; distinct = distinct "
         "(configuration, choices)")
 
@@ -135,8 +135,9 @@ def execute(ch, cname):
             _, dgs = ecparse.parse(bytes(back))
             counters = []
             for d, nat, pre in zip(dgs[1:], e["natural"], e["sent_wkc"]):
-                c = ch.choose(3, "wkc")
-                v = [nat, nat - 1 if nat else 1, 0 if nat else 2][c]
+                c = ch.choose(4, "wkc")
+                v = [nat, nat + 1, nat - 1 if nat else 2,
+                     0 if nat > 1 else 3][c]
                 struct.pack_into("<H", back, d.wkc_pos, v)
                 # number of terminals that processed it = increment on the bus
                 counters.append((nat - pre, v))
